@@ -161,7 +161,14 @@ def correspondence(ctx: core.Ctx) -> None:
     ranges = [c11_gen.py_range(ctx.rng) for _ in range(n)]
     for k in range(0, len(ranges), 2000):
         check_ranges(ctx, ranges[k:k + 2000], "gen-ranges")
-    ms = gen_markers(ctx, ctx.budget(500, 15000))
+    pu = G.python_leaf_universe()
+    allp = [(f"{a} {op} {b}", True) for a in pu for b in pu for op in ("and", "or")]
+    if not ctx.thorough:
+        pvpv = [(f"{a} and {b}", True) for a in pu for b in pu if a.startswith("python_version") and b.startswith("python_version")]
+        allp = pvpv + ctx.rng.sample(allp, 300)
+    for k in range(0, len(allp), 1500):
+        check_markers(ctx, allp[k:k + 1500], "python-pairs")
+    ms = gen_markers(ctx, ctx.budget(400, 15000))
     for k in range(0, len(ms), 1500):
         check_markers(ctx, ms[k:k + 1500], "gen-markers")
 
